@@ -1297,7 +1297,7 @@ def run(ctx):
     check_lower(ctx)
     unit_functions(ctx)
     unit_worlds(ctx)
-    c07_nontext.unit_nontext(ctx, sys.modules[__name__], correspond=False)
+    c07_nontext.unit_nontext(ctx, sys.modules[__name__])
     witness_replay(ctx)
 
 
